@@ -233,26 +233,26 @@ def wheel_name(w: List[Any]) -> str:
     return "%s-%s-%s.whl" % (w[0], w[1], w[2])
 
 
-class _Resp:
+class _Resp(common.FakeResponseBase):
     def __init__(self, url: str, status: int, content: bytes) -> None:
         self.url, self.status_code, self.content = url, status, content
 
-    def raise_for_status(self) -> None:
+    def raise_for_status(self, *args: Any, **kwargs: Any) -> None:
         if self.status_code >= 400:
             raise RuntimeError("http %d" % self.status_code)
 
-    def iter_content(self, n: int):
+    def iter_content(self, *args: Any, **kwargs: Any):     # whatever chunk size / flags the code asks for
         yield self.content
 
 
-class FakeSession:
+class FakeSession(common.FakeSessionBase):
     """in-process stand-in for requests.Session: pages and files by URL"""
 
     def __init__(self) -> None:
         self.pages: Dict[str, bytes] = {}
         self.files: Dict[str, bytes] = {}
 
-    def get(self, url: str, stream: bool = False) -> _Resp:
+    def get(self, url: str, *args: Any, **kwargs: Any) -> _Resp:     # stream=, timeout=, headers= ...: all the same here
         if url in self.pages:
             return _Resp(url, 200, self.pages[url])
         if url in self.files:
@@ -374,9 +374,9 @@ def build(mods, u: Dict[str, Any], base: str) -> Built:
     for leaf in b.leaves:
         orig = leaf.get_candidates
 
-        def wrapped(req, _orig=orig, _id=b.ids[id(leaf)]):
+        def wrapped(*args, _orig=orig, _id=b.ids[id(leaf)], **kwargs):     # forwards whatever the code passes
             b.log.append(_id)
-            return _orig(req)
+            return _orig(*args, **kwargs)
         leaf.get_candidates = wrapped
     b.base = os.path.abspath(base)
     return b
@@ -403,6 +403,7 @@ def run_request(mods, b: Built, rq: Dict[str, Any]) -> str:
     except E.NoCandidateException:
         ans = "NC"
     except Exception as ex:
+        common.reraise_harness_fault(ex)     # an error of the recording wrappers / fake session is not the code's
         ans = "EXC " + type(ex).__name__
     return "%s | %s | %s" % (b.shape, ans, ",".join(map(str, b.log)) if b.log else "-")
 
@@ -500,7 +501,7 @@ def run_main(mods, case: Dict[str, Any], base: str) -> Dict[str, Any]:
         serve(session, u, case["holdings"][u])
     fetched: List[str] = []
 
-    def fake_get(self, url, **kw):
+    def fake_get(self, url, *a, **kw):
         fetched.append(url)
         return session.get(url)
     cap: Dict[str, Any] = {}
@@ -512,8 +513,10 @@ def run_main(mods, case: Dict[str, Any], base: str) -> Dict[str, Any]:
         return real_write(*a, **kw)
 
     def spy_build(*a, **kw):
-        cap["index_urls"] = list(a[5])
-        cap["extra"] = None if kw.get("extra_index_urls") is None else list(kw["extra_index_urls"])
+        iu = common.arg_of(real_build, a, kw, "index_urls", pos=5, default=())     # however the call spells them
+        xu = common.arg_of(real_build, a, kw, "extra_index_urls", pos=7)
+        cap["index_urls"] = list(iu)
+        cap["extra"] = None if xu is None else list(xu)
         try:
             cap["repo"] = real_build(*a, **kw)
         except ValueError:
@@ -521,8 +524,8 @@ def run_main(mods, case: Dict[str, Any], base: str) -> Dict[str, Any]:
             raise
         return cap["repo"]
 
-    def spy_compile(input_reqs, repo, *a, **kw):
-        res = real_compile(input_reqs, repo, *a, **kw)
+    def spy_compile(*a, **kw):
+        res = real_compile(*a, **kw)
         cap["results"] = res[0]
         return res
     P._scan_page_links.cache_clear()
